@@ -460,13 +460,22 @@ class GhostList:
     """a list whose old content (any length) is opaque; only the operations recorded here are allowed"""
 
     def __init__(self, name):
-        self._name, self.appended = name, []
+        self._name, self.appended, self.cleared = name, [], False
 
     def append(self, x):
         self.appended.append(x)
 
+    def clear(self):
+        """the opaque old content is dropped: from now on the list is exactly what is appended afterwards"""
+        self.cleared = True
+        self.appended = []
+
     def extend(self, xs):
         self.appended.extend(list(xs))
+
+    def __deepcopy__(self, memo):
+        import copy as _c
+        return Opaque(("deepcopy of the opaque list", self._name), of=self, appended=_c.deepcopy(self.appended, memo))
 
     def __iadd__(self, xs):
         if not isinstance(xs, list):
